@@ -248,7 +248,9 @@ def ms_state(I, ctx, crate, nv=NV, ordered=False, large=False):
     large=True: nv concrete (valid, sorted) addresses instead of abstract ones — a group bigger than a ListMembers page"""
     if large:
         from mirsym import replay as _rp
+        from mirsym.models.cosmwasm import valid_addr_pred
         V = sorted(_rp.addr_pool(nv, prefix="voter"))
+        for a in V: ctx.assume(valid_addr_pred(ctx, ctx.atom_of(a)))
     else:
         V = universe(ctx, nv, "v", ordered=ordered)
     cfg = sym_item(I, ctx, "config", "state::Config", crate, present=True).value
